@@ -23,7 +23,7 @@ META = {
                     "events simulation-based results must be bit-identical; under (b)/(c) simulation-based distributions are compared through the statistic only"],
     "deciding": ["pair:events", "pair:catalogs", "pair:cells"],
 }
-META["added"] = 'Added: the same forecast written to .dat files in different cell orders and loaded by the real loader, catalogs carrying a region that lists the cells in another order, mirrored-cell benchmark on dyadic rates (exact opposite-sign ties for the rank test), in-place re-ordering of an already evaluated catalog object, near-tie quantile skip. only forecast B re-listed; fixed seed 0. non-C rate tables in cell permutations, origin times travelling with the events.'
+META["added"] = 'Added: the same forecast written to .dat files in different cell orders and loaded by the real loader, catalogs carrying a region that lists the cells in another order, mirrored-cell benchmark on dyadic rates (exact opposite-sign ties for the rank test), in-place re-ordering of an already evaluated catalog object, near-tie quantile skip. only forecast B re-listed; fixed seed 0. non-C rate tables in cell permutations, origin times travelling with the events. structural-tie clause for twin catalogs.'
 MANIFEST = {
     "technique": "metamorphic recorder pairing two real executions of each public evaluation on permuted-but-equivalent inputs; equality oracle on statistic / analytic quantile / multiset of simulation-free distributions, bit equality under event permutation with a fixed seed",
     "level_text": "For generated forecasts/catalogs each of the 18 evaluation functions is executed on the original input and on event-, catalog- and cell-permuted equivalents (Cartesian and quadtree regions, events on cell boundaries); statistics and analytic quantiles must agree to rounding, simulation-free distributions as multisets, and seeded simulation-based results bit-for-bit under event permutation.",
@@ -310,8 +310,26 @@ def ex_catalog(ctx, fc, seed=0):
                 if fc.get("obs_times"):
                     v["obs_times"] = [fc["obs_times"][i] for i in p]
                 variants.append(("events", v))
+        # synthetic catalogs occupying exactly the observation's cells (with the same multiplicities) are STRUCTURAL ties of the spatial statistic:
+        # the same counts scored by the same code - they must tie the observed statistic bit for bit in every storage order
+        from collections import Counter
+        obs_cells = Counter(c for c, _k in fc["obs"])
+        twins = sum(1 for cat_ in fc["cats"] if cat_ and Counter(c for c, _k in cat_) == obs_cells) if fc["obs"] and not fc.get("obs_below") else 0
+
+        def twin_clause(res_sig, tags):
+            if not twins or isinstance(res_sig, tuple) or res_sig is None or res_sig["dist"] is None or res_sig["stat"] is None or res_sig["stat"].size != 1:
+                return
+            if res_sig["status"] != "normal":
+                return
+            eq = int(numpy.sum(res_sig["dist"] == float(res_sig["stat"][0])))
+            ctx.add("structural_tie_checks")
+            if eq < twins:
+                ctx.violate("quantile changes with storage order", rc, observed={"entries_equal_to_statistic": eq, "quantile": res_sig["quantile"]},
+                            expected={"twin_catalogs": twins}, tags=dict(tags, clause="quantile", structural_ties=True))
+        twin_clause(base["catalog.S"], {"perm": "none", "test": "catalog.S"})
         for which, v in variants:
             other = run_all(v)
+            twin_clause(other["catalog.S"], {"perm": which, "test": "catalog.S"})
             ctx.count(len(tests))
             for name, fn, kw, kind in tests:
                 ctx.mon("pair:" + which, 1)
@@ -343,6 +361,7 @@ def ex_catalog(ctx, fc, seed=0):
                 ok, res, tb = ctx.call(fn, f2, obs1, **kw)
                 other[name] = sig(res, kind) if ok else ("raised", type(res).__name__)
             ctx.count(len(tests))
+            twin_clause(other["catalog.S"], {"perm": "cells-region-rebound", "test": "catalog.S"})
             for name, fn, kw, kind in tests:
                 ctx.mon("pair:cells", 1)
                 tags = {"perm": "cells-region-rebound", "test": name}
@@ -457,7 +476,7 @@ def run(ctx):
             B = rates[::-1]
             ctx.add("mirrored_benchmark_cases")
         ex_gridded(ctx, case, B.tolist(), seed=int(r.integers(0, 10 ** 6)) if j % 4 else 0, quad=quad)      # every fourth case: the fixed seed is 0
-        fc = c10.gen(r, obs_mode=str(r.choice(["normal", "dense", "normal", "unsampled-some"])), empty_mode=[None, "some"][j % 2])
+        fc = c10.gen(r, obs_mode=str(r.choice(["normal", "dense", "twin", "unsampled-some", "twin"])), empty_mode=[None, "some"][j % 2])
         ex_catalog(ctx, fc, seed=int(r.integers(0, 10 ** 6)))
         if j % 2 == 0:
             from . import c11
